@@ -354,6 +354,15 @@ class Normaliser:
         a, b = self.norm(e.body), self.norm(e.orelse)
         if c[0] == 'const' and isinstance(c[1], bool):
             return a if c[1] else b
+        # a constant arm makes the choice a conjunction / disjunction (operands in boolean position, as for ``and`` / ``or``)
+        if a == ('const', False):
+            return mk_bool('and', [mk_not(c), truthy(b)])
+        if a == ('const', True) and is_boolish(c):
+            return mk_bool('or', [c, truthy(b)])
+        if b == ('const', False) and is_boolish(c):
+            return mk_bool('and', [c, truthy(a)])
+        if b == ('const', True):
+            return mk_bool('or', [mk_not(c), truthy(a)])
         nc = mk_not(c)
         if key(nc) < key(c):
             c, a, b = nc, b, a
